@@ -4,4 +4,7 @@ INVARIANT InGridInv
 INVARIANT ForestOnVisited
 INVARIANT WalkSimple
 INVARIANT DoneSpanning
+INVARIANT NoTrap
+PROPERTY TreeGrows
+PROPERTY CommitShrinks
 CHECK_DEADLOCK FALSE
